@@ -87,3 +87,12 @@ var _ = pr.AutoF
 //@ func iface (boxes.*).Box
 //@   pure
 //@   ensures result != nil
+
+// ---------------------------------------------------------------------------
+// C09 / C13: the table grid. Each cell is given the slots [GridX, GridX+Colspan) of its row (and
+// of the Rowspan-1 rows below): "no two cells on the same grid slot" requires every one of these
+// slots to be free when the cell is placed.
+//@ func wrapTable
+//@   props C09 C13
+//@   modifies anything
+//@   assert after newGridX#1: forall(i, gridX, newGridX, !occupiedCellsInThisRow[i])
